@@ -164,9 +164,10 @@ def main():
                     try:
                         r = subprocess.run([os.path.join(VERIF, "check"), pid, "--no-evidence"], cwd=VERIF, env=env, capture_output=True, text=True, timeout=1800)
                         viol = [ln for ln in r.stdout.split("\n") if ln.startswith(f"VIOLATION property={pid}")]
-                        if viol:
+                        rec["exit"] = r.returncode
+                        if viol or r.returncode == 1:
                             rec["result"] = "caught"
-                            rec["first"] = viol[0].split("#", 1)[-1].strip()[:200]
+                            rec["first"] = viol[0].split("#", 1)[-1].strip()[:200] if viol else "exit 1"
                         elif r.returncode == 2:
                             rec["result"] = "inconclusive"
                             rec["first"] = next((ln for ln in r.stdout.split("\n") if ln.startswith("INCONCLUSIVE")), "")[:200]
